@@ -3,8 +3,10 @@ package gen
 import (
 	"errors"
 	"io"
+	"os"
 	"runtime"
 	"sync"
+	"syscall"
 	"time"
 )
 
@@ -18,14 +20,16 @@ func (e *DeviceFault) Error() string { return "verif: injected device fault" }
 
 // Fault kinds.
 const (
-	FaultEOF        = "eof"
-	FaultUnexpected = "unexpected_eof"
-	FaultCustom     = "custom"
-	FaultPartial    = "error_with_partial_data"
-	FaultTransient  = "transient_custom"
-	FaultTypedEOF   = "typed_error_then_eof" // first failing Read returns a *DeviceFault, every later Read returns io.EOF
+	FaultEOF              = "eof"
+	FaultUnexpected       = "unexpected_eof"
+	FaultCustom           = "custom"
+	FaultPartial          = "error_with_partial_data"
+	FaultTransient        = "transient_custom"
+	FaultTypedEOF         = "typed_error_then_eof"              // first failing Read returns a *DeviceFault, every later Read returns io.EOF
 	FaultTransientPartial = "transient_error_with_partial_data" // once: an error returned together with a partial read; afterwards the source delivers again
-	FaultTemporary  = "temporary_error"      // an error whose Temporary() method reports true (EAGAIN-like), returned on every Read from the fault on
+	FaultTemporary        = "temporary_error"                   // an error whose Temporary() method reports true (EAGAIN-like), returned on every Read from the fault on
+	FaultOSError          = "os_path_error"                     // what a failing device node returns: *os.PathError{read, /dev/hwrng, EIO} on every Read from the fault on
+	FaultEOFThenOS        = "eof_then_os_error"                 // the first failing Read returns io.EOF, every later one an *os.PathError (a file closed underneath the reader)
 )
 
 // TemporaryFault is an error with Temporary() == true that nevertheless never goes away.
@@ -36,7 +40,7 @@ func (TemporaryFault) Temporary() bool { return true }
 func (TemporaryFault) Timeout() bool   { return false }
 
 // FaultKinds lists all injectable failure kinds.
-var FaultKinds = []string{FaultEOF, FaultUnexpected, FaultCustom, FaultPartial, FaultTransient, FaultTypedEOF, FaultTemporary, FaultTransientPartial}
+var FaultKinds = []string{FaultEOF, FaultUnexpected, FaultCustom, FaultPartial, FaultTransient, FaultTypedEOF, FaultTemporary, FaultTransientPartial, FaultOSError, FaultEOFThenOS}
 
 // Reader is a concurrency-safe stream over a fixed byte slice with a chunk
 // plan (how many bytes each Read may return), an optional fault offset and an
@@ -54,11 +58,11 @@ type Reader struct {
 	Delays []int  // per-Read delay code, cycled: 0 none, 1..9 Gosched x k, >=10 sleep microseconds
 	di     int
 
-	Calls     int
-	Faulted   int // number of Reads that returned an injected error
-	Delivered int
-	InRead    int32
-	Wrap      bool // cycle data forever (periodic sources)
+	Calls       int
+	Faulted     int // number of Reads that returned an injected error
+	Delivered   int
+	InRead      int32
+	Wrap        bool // cycle data forever (periodic sources)
 	EOFWithData bool // when a Read delivers the last byte of the data it returns io.EOF together with it (allowed by io.Reader)
 }
 
@@ -72,6 +76,13 @@ func (r *Reader) failure() error {
 		return io.ErrUnexpectedEOF
 	case FaultTemporary:
 		return TemporaryFault{}
+	case FaultOSError:
+		return &os.PathError{Op: "read", Path: "/dev/hwrng", Err: syscall.EIO}
+	case FaultEOFThenOS:
+		if r.Faulted == 0 {
+			return io.EOF
+		}
+		return &os.PathError{Op: "read", Path: "/dev/hwrng", Err: os.ErrClosed}
 	case FaultTypedEOF:
 		if r.Faulted == 0 {
 			return &DeviceFault{Code: 5}
